@@ -2,7 +2,11 @@ package rules
 
 import (
 	"fmt"
+	"go/token"
+	"go/types"
+	"golang.org/x/tools/go/packages"
 	"math/big"
+	"strings"
 
 	"verif/internal/absint"
 	"verif/internal/load"
@@ -17,6 +21,7 @@ func checkC15(c *Ctx) {
 	prog := c.Prog(load.AMD64)
 	c15Drivers(c, prog)
 	c15Uniform(c, prog)
+	c15HashLinked(c, prog)
 	k := c15Consts(c, prog)
 	if k != nil {
 		c15SWU(c, prog, k)
@@ -24,6 +29,64 @@ func checkC15(c *Ctx) {
 	}
 	c.R.Explanation = "The two suite functions are abstractly interpreted with a symbolic message and a domain separation tag of symbolic length: an error is returned exactly for the empty tag, and the 48 / 96 uniform bytes are, as SHA-256 transcript terms and for both cases len(DST) <= 255 / > 255 (DST replaced by SHA256('H2C-OVERSIZE-DST-' || DST)), b_1 [|| b_2 || b_3] of RFC 9380 5.3.1 with b_0 = H(0^64 || msg || I2OSP(len,2) || 0 || DST'), b_1 = H(b_0 || 1 || DST'), b_i = H(b_0 xor b_(i-1) || i || DST'); NU = map(u[0:48]), RO = map(u[0:48]) + map(u[48:96]). SetUniformBytes = select(iso_ok, identity, (x, y, 1)) of IsoMap(MapToCurveSimpleSWU(OS2IP(src) mod p)) with the validity flag set. MapToCurveSimpleSWU is compared, for the four valuations of (exceptional case, gx1 square) and all sign cases, with the straight-line procedure of RFC 9380 F.2 written out in the checker; IsoMap's outputs are the rational functions with the 13 coefficient literals, which (read from the source) satisfy the polynomial identity g'(x) ynum^2 xden^3 = (xnum^3 + 7 xden^3) yden^2 in F_p[x] (so the map sends E' into secp256k1) and equal RFC 9380 E.1; Z = -11 is a non-square satisfying the RFC's criteria, A', B' are section 8.7's, c2^2 = -Z."
 	c.R.Assumptions = []string{"C01 (field specification incl. wide reduction, sqrt_ratio, IsOdd = sgn0), C03 (addition)", "crypto/sha256; collision resistance / uniformity are cryptographic properties and not decided"}
+}
+
+// c15HashLinked: a package that instantiates a hash through crypto.Hash.New and names a hash identifier must have the
+// implementing package in its own import closure; otherwise New panics ("requested hash function is unavailable") in
+// every program that does not happen to link the implementation for another reason.
+func c15HashLinked(c *Ctx, prog *load.Program) {
+	impl := map[string]string{"SHA224": "crypto/sha256", "SHA256": "crypto/sha256", "SHA384": "crypto/sha512", "SHA512": "crypto/sha512",
+		"SHA512_224": "crypto/sha512", "SHA512_256": "crypto/sha512", "SHA1": "crypto/sha1", "MD5": "crypto/md5",
+		"SHA3_224": "golang.org/x/crypto/sha3", "SHA3_256": "golang.org/x/crypto/sha3", "SHA3_384": "golang.org/x/crypto/sha3", "SHA3_512": "golang.org/x/crypto/sha3"}
+	n := 0
+	for _, pkg := range prog.Pkgs {
+		callsNew := false
+		var newPos token.Pos
+		used := map[string]token.Pos{}
+		for id, obj := range pkg.TypesInfo.Uses {
+			if obj.Pkg() == nil || obj.Pkg().Path() != "crypto" {
+				continue
+			}
+			switch o := obj.(type) {
+			case *types.Const:
+				if _, ok := impl[o.Name()]; ok {
+					used[o.Name()] = id.Pos()
+				}
+			case *types.Func:
+				if o.Name() == "New" {
+					if sig, ok := o.Type().(*types.Signature); ok && sig.Recv() != nil && strings.HasSuffix(sig.Recv().Type().String(), "crypto.Hash") {
+						callsNew, newPos = true, id.Pos()
+					}
+				}
+			}
+		}
+		if !callsNew || len(used) == 0 {
+			continue
+		}
+		// import closure of the package (the package itself included)
+		closure := map[string]bool{}
+		var visit func(p *packages.Package)
+		visit = func(p *packages.Package) {
+			if closure[p.PkgPath] {
+				return
+			}
+			closure[p.PkgPath] = true
+			for _, q := range p.Imports {
+				visit(q)
+			}
+		}
+		visit(pkg)
+		for _, name := range SortedKeys(used) {
+			n++
+			key := "hash-linked/" + strings.TrimPrefix(pkg.PkgPath, models.Mod+"/") + "/" + name
+			c.R.Decide(closure[impl[name]], "C15-1", key, PosStr(prog, newPos),
+				"crypto."+name+".New() is backed by an import of "+impl[name]+" in this package's import closure",
+				"the package calls crypto.Hash.New and names crypto."+name+", but "+impl[name]+" is not in its import closure: New panics unless another package of the program happens to link it")
+		}
+	}
+	if n == 0 {
+		c.R.OK("C15-1", "hash-linked/none", "", "no package instantiates a hash through crypto.Hash.New")
+	}
 }
 
 // xmdSpec builds the RFC 9380 5.3.1 blocks for output length n (48 or 96) in the two DST cases.
